@@ -217,6 +217,15 @@ fn check_single(ctx: &mut Ctx, r: &Rectangle, sizes: &[(u32, u32)], offsets: &[i
             ctx.violation("rect|points", case, || format!("points() yields {} points, expected {} row-major points; first {:?}", pts.len(), want.len(), pts.first()));
         }
         ctx.count("points_enumerated", pts.len() as u64);
+        // the same sequence through the other ways of consuming an iterator, from partly consumed states
+        if pts == want && want.len() <= 4096 {
+            let n = want.len();
+            let w = m.w.max(0) as usize;
+            if let Some(d) = egmon::target::consumer_disagreement(&|| r.points(), &want, &[0, 1, w, w + 1, n / 2, n.saturating_sub(1), n]) {
+                ctx.violation("rect|points|consumed-differently", case, || d.clone());
+            }
+            ctx.count("points_iterators_consumed_in_other_ways", 1);
+        }
     }
     // center / with_center
     let c = r.center();
